@@ -212,3 +212,37 @@ def op_cap(dim, L):
     if dim == 1:
         return 640
     return 640 if L < 20 else 96
+
+
+_BYLEN = {}
+for _w in WAVES:
+    _BYLEN.setdefault(flen(_w), []).append(_w)
+
+
+def sibling(w):
+    """Another wavelet with the same filter length (None if there is none)."""
+    sibs = [x for x in _BYLEN[flen(w)] if x != w and
+            not np.allclose(pywt.Wavelet(x).dec_lo, pywt.Wavelet(w).dec_lo)]
+    if not sibs:
+        return None
+    return sibs[(WAVES.index(w) * 7) % len(sibs)]
+
+
+def reused_module(make, make_sibling, warm):
+    """A module that has a past: built for a sibling wavelet of the same filter length, used once (warm(m)), then
+    given the right filters through load_state_dict. Anything cached per module / per buffer address during the
+    first life must not leak into the second."""
+    m = make_sibling()
+    warm(m)
+    m.load_state_dict(make().state_dict())
+    return m
+
+
+def pyr_shapes_axes(size, Ls, mode, J):
+    """pyr_shapes with one filter length per axis."""
+    per_axis = [level_lengths(n, L, mode, J)[1] for n, L in zip(size, Ls)]
+    if len(size) == 1:
+        ks = per_axis[0]
+        return (ks[-1],), [(k,) for k in ks]
+    kh, kw = per_axis
+    return (kh[-1], kw[-1]), [(3, a, b) for a, b in zip(kh, kw)]
